@@ -1,1 +1,105 @@
 """Property-specific session drivers (registered into runner.SPECIAL)."""
+import copy
+
+from .runner import register_special
+from .drive import drive, make_observe, OBS_KW
+from .gen import Gen
+from .spec import LOADS
+
+
+def _prefix(sess, rnd, cfg, record, n_ops=0):
+    """Grow a system with the generic driver (no main loop) and yield its ops."""
+    c = dict(cfg)
+    c["n_ops"] = n_ops
+    for op in drive(sess, rnd, c, record):
+        if op.get("final"):
+            op = dict(op)
+            op.pop("final")
+            record[-1].pop("final", None)
+        yield op
+
+
+def _emit(record, op):
+    record.append(copy.deepcopy(op))
+    return op
+
+
+@register_special("C18")
+def drive_c18(sess, rnd, cfg, record):
+    cfg["w"] = dict(cfg["w"], analyse=0.2, reject=0.1, restart=0.1, domfault=0.0, observe=1.0)
+    cfg["multi_source"] = 0.6
+    cfg["max_comps"] = min(cfg["max_comps"], 9)
+    yield from _prefix(sess, rnd, cfg, record, n_ops=cfg["n_ops"] // 3)
+    g = sess.gen
+    R = g.r
+    for _ in range(R.randint(1, 3)):
+        m = sess.model
+        from . import observe as O
+
+        tb = None
+        r = sess._guard(lambda: sess.sut.solve(**OBS_KW))
+        if r[0] == "ok":
+            tb = O.Table(r[1])
+        else:
+            break
+        if R.chance(0.12):
+            op = g.op_batt_nonsource(m)
+        else:
+            op = g.op_batt(m, tb)
+        if op is None:
+            continue
+        yield _emit(record, op)
+        # same battery, another clock: the result must not depend on it
+        if R.chance(0.3) and "pfault" not in op:
+            op2 = copy.deepcopy(op)
+            op2["clock"] = R.pick(["stall", "back", "jump", "mono"])
+            op2["same_as_prev"] = True
+            yield _emit(record, op2)
+        if R.chance(0.3):
+            e = g.op_change(sess.model) if R.chance(0.5) else g.op_comp_phases(sess.model)
+            if e:
+                yield _emit(record, e)
+    op = make_observe(g, sess.model, cfg)
+    op["final"] = True
+    yield _emit(record, op)
+
+
+@register_special("C17")
+def drive_c17(sess, rnd, cfg, record):
+    """Analysis-heavy session; half of the runs add the batt_life callback-fault
+    enumeration: a fault-free run counting K invocations, then a run with an
+    exception at the k-th invocation for every k in 1..K+1."""
+    cfg["env_faults"] = 0.35
+    R0 = None
+    if rnd.random() < 0.5:
+        yield from drive(sess, rnd, cfg, record)
+        return
+    cfg["max_comps"] = min(cfg["max_comps"], 9)
+    yield from _prefix(sess, rnd, cfg, record, n_ops=4)
+    g = sess.gen
+    R = g.r
+    from . import observe as O
+
+    r = sess._guard(lambda: sess.sut.solve(**OBS_KW))
+    if r[0] != "ok":
+        return
+    tb = O.Table(r[1])
+    base = g.op_batt(sess.model, tb)
+    base.pop("clock", None)
+    yield _emit(record, base)
+    K = len(sess.last_peer.log) if getattr(sess, "last_peer", None) else 0
+    ks = list(range(1, K + 2))
+    if len(ks) > 40:
+        ks = ks[:10] + sorted(R.sample(ks[10:-2], 26)) + ks[-2:]
+    for j, k in enumerate(ks):
+        op = copy.deepcopy(base)
+        op["pfault"] = {"k": k, "exc": "KeyboardInterrupt" if (j % 13 == 5) else "RuntimeError"}
+        op["probe_full"] = (j == len(ks) - 1)
+        if k > 1:
+            sess.nontrivial.add(("battfault", base["model"]["kind"], min(k, 20), op["pfault"]["exc"]))
+        yield _emit(record, op)
+        if R.chance(0.15):
+            yield _emit(record, g.op_analysis_of(sess.model, R.pick(["solve", "params", "rail_rep"])))
+    op = make_observe(g, sess.model, cfg)
+    op["final"] = True
+    yield _emit(record, op)
